@@ -553,3 +553,72 @@ Proof.
   - intros (vo & H). eapply sc_algo_sound_SC; eassumption.
   - now apply sc_algo_complete.
 Qed.
+
+(* ============================================================================================== *)
+(* 9. no IndexError on well-formed profiles; the verdict as a boolean                              *)
+(* ============================================================================================== *)
+Lemma scan_bound v1 v2 k rest (B : Z) : (forall o, In o rest -> Z.of_nat (ktd v1 o) <= B) ->
+  forall sc sc', (forall o, Z.abs (lookup sc o) <= B) -> scan v1 v2 k rest sc = Some sc' ->
+  forall o, Z.abs (lookup sc' o) <= B.
+Proof.
+  induction rest as [|x t IH]; intros Hb sc sc' Hinv H.
+  - simpl in H. injection H as <-. exact Hinv.
+  - cbn [scan] in H.
+    assert (Hx : Z.of_nat (ktd v1 x) <= B) by (apply Hb; now left).
+    assert (Hup : forall v, Z.abs v <= B -> forall o, Z.abs (lookup (upd sc x v) o) <= B).
+    { intros v Hv o. destruct (order_eq_dec x o) as [<-|Hne].
+      - now rewrite lookup_upd_same.
+      - rewrite lookup_upd_other by assumption. apply Hinv. }
+    assert (Ht : forall o, In o t -> Z.of_nat (ktd v1 o) <= B) by (intros o Ho; apply Hb; now right).
+    destruct (Nat.eqb (ktd v1 x + ktd v2 x) k).
+    { eapply (IH Ht); [|exact H]. apply Hup. lia. }
+    destruct (Nat.eqb (k + ktd v2 x) (ktd v1 x)).
+    { eapply (IH Ht); [|exact H]. apply Hup. lia. }
+    destruct (Nat.eqb (ktd v1 x + k) (ktd v2 x)); [|discriminate].
+    eapply (IH Ht); [|exact H]. apply Hup. lia.
+Qed.
+
+Theorem sc_algo_no_error alts orders : wf_profile alts orders -> forall e, sc_algo alts orders <> Err e.
+Proof.
+  intros (Hna & Hno & Hwf) e. rewrite Forall_forall in Hwf.
+  destruct orders as [|v1 [|v2 rest]]; [discriminate|discriminate|].
+  unfold sc_algo.
+  destruct (scan v1 v2 (ktd v1 v2) rest [(v2, Z.of_nat (ktd v1 v2))]) as [sc|] eqn:Hscan; [|discriminate].
+  cbv zeta. destruct (Nat.ltb (length (v1 :: v2 :: rest)) (length alts)).
+  - destruct (ordered_check _); discriminate.
+  - assert (Hb : forall o, Z.abs (lookup sc o) <= Z.of_nat (length alts * length alts)).
+    { eapply scan_bound; [| |exact Hscan].
+      - intros o Ho. apply inj_le. apply (ktd_bound alts Hna); apply Hwf; [now left|right; now right].
+      - intros o. simpl. destruct (order_eqb v2 o); [|lia].
+        pose proof (ktd_bound alts Hna v1 v2 (Hwf v1 (or_introl eq_refl)) (Hwf v2 (or_intror (or_introl eq_refl)))). lia. }
+    destruct (bucket_phase (length alts) (lookup sc) (v1 :: v2 :: rest)) as [[vo|]|e'] eqn:Eb.
+    + destruct (ordered_check vo); discriminate.
+    + discriminate.
+    + exfalso. unfold bucket_phase in Eb.
+      replace (forallb _ (v1 :: v2 :: rest)) with true in Eb.
+      * destruct (existsb _ _) in Eb; discriminate.
+      * symmetry. apply forallb_forall. intros o _. rewrite bucket_index_in_range; [reflexivity|].
+        specialize (Hb o). lia.
+Qed.
+
+Theorem sc_algo_verdict_correct alts orders : wf_profile alts orders ->
+  sc_algo_verdict alts orders = sc_decide alts orders.
+Proof.
+  intros Hwf. unfold sc_algo_verdict.
+  destruct (sc_decide alts orders) eqn:Ed.
+  - apply sc_decide_correct in Ed. destruct (sc_algo_complete alts orders Hwf Ed) as (vo & ->). reflexivity.
+  - destruct (sc_algo alts orders) as [[vo|]|e] eqn:Ea; try reflexivity.
+    apply (sc_algo_sound_SC alts orders vo Hwf) in Ea. apply sc_decide_correct in Ea. congruence.
+Qed.
+
+(* the answer (False, None) is given exactly on the profiles that are not single-crossing *)
+Theorem sc_algo_false_iff alts orders : wf_profile alts orders ->
+  (sc_algo alts orders = Ok None <-> ~ SC alts orders).
+Proof.
+  intros Hwf. split.
+  - intros H Hsc. destruct (sc_algo_complete alts orders Hwf Hsc) as (vo & E). congruence.
+  - intros Hn. destruct (sc_algo alts orders) as [[vo|]|e] eqn:Ea.
+    + exfalso. apply Hn. eapply sc_algo_sound_SC; eassumption.
+    + reflexivity.
+    + exfalso. eapply sc_algo_no_error; eassumption.
+Qed.
